@@ -268,7 +268,10 @@ def r_halfrank(xs, params):
                 c['unwarper_originals_strictly_ascending'] = ol == uniq
                 c['unwarper_table_pairs_observed_label_with_its_warped_value'] = all(
                     any(y[p] == ol[t] and (o[p] == wl[t] or (math.isnan(o[p]) and math.isnan(wl[t]))) for p in range(n)) for t in range(len(ol)))
-                c['unwarper_saved_median_at_most_largest_warped'] = (not wl) or float(uw._original_label_median) <= wl[-1]
+                om = float(uw._original_label_median)
+                c['unwarper_saved_median_at_most_largest_warped'] = (not wl) or om <= wl[-1]
+                if all(fin(v) for v in y):
+                    c['unwarper_tables_consistent_with_saved_median'] = all((wl[t] == ol[t]) if ol[t] >= om else (wl[t] < om) for t in range(len(ol)))
     return c, repr(val)
 
 
@@ -345,10 +348,11 @@ def r_halfrank_unwarp(xs, params):
     kind, val = call(lambda: w.unwarp(a))
     y = validated(xs)
     c = {'raises_only_documented': _raise_clause(kind, val, xs, allowed=[('nan', any(math.isnan(v) for v in y))]), 'input_not_modified': _frame(a, before)}
+    if any(math.isnan(v) for v in y):
+        c['nan_rejected'] = kind == 'raise' and isinstance(val, ValueError) and 'nan' in str(val)
     if kind == 'ok':
         o = flat(val)
         c['shape_preserved'] = val.shape == a.shape
-        c['nan_rejected'] = not any(math.isnan(v) for v in y)
         c['applies_unwarper_to_every_entry'] = all(close(o[i], float(w._unwarper.unwarp(y[i])), 1e-9, scale_of(y)) for i in range(len(y)))
     return c, repr(val)
 
@@ -463,6 +467,7 @@ def r_outliers(xs, params):
         kept = [i for i in range(n) if fin(o[i])]
         c['order_and_ties_of_kept_entries_preserved'] = all((y[i] < y[j]) == (o[i] < o[j]) and (y[i] == y[j]) == (o[i] == o[j]) for i in kept for j in kept)
         c['only_labels_below_kept_ones_are_dropped'] = all(y[i] < y[j] for i in range(n) if fin(y[i]) and math.isnan(o[i]) for j in kept)
+        c['some_label_is_kept'] = (params.get('min_zscore', 6.0) < 0) or (not any(fin(v) for v in y)) or bool(kept)
     return c, repr(val)
 
 
@@ -503,6 +508,46 @@ def r_default_pipeline(xs, params):
     return c, obs
 
 
+def r_ttg(xs, params):
+    y = validated(xs)
+    if any(not fin(v) for v in y):
+        return {}, 'precondition: all labels finite (established by the preceding InfeasibleWarperComponent)'
+    gaps = [abs(u - v) for u in set(y) for v in set(y) if u != v]
+    if gaps and (max(y) - min(y)) > 1e3 * min(gaps):
+        return {}, 'ill-conditioned for the float32 arithmetic of jax (rounding, excluded by the stated arithmetic assumption)'
+    a = col(xs)
+    before = flat(a)
+    kind, val = call(lambda: ow.TransformToGaussian(use_rank=bool(params.get('use_rank', False))).warp(a))
+    c = {'raises_only_documented': kind == 'ok', 'input_not_modified': _frame(a, before)}
+    if kind == 'ok':
+        o = flat(val)
+        c['shape_preserved'] = np.shape(val) == a.shape
+        oc = _order_clauses(y, o)
+        c['order_preserved_on_finite_labels'] = oc['order'] and (len(set(y)) < 2 or all(fin(v) for v in o))
+        c['ties_preserved'] = oc['ties']
+        c['finite_output_for_nonconstant_finite_labels'] = len(set(y)) < 2 or all(fin(v) for v in o)
+    return c, repr(val)
+
+
+def r_outlier_pipeline(xs, params):
+    p = ow.create_warp_outliers_warper()
+    gaps = [abs(u - v) for u in set(validated(xs)) for v in set(validated(xs)) if fin(u) and fin(v) and u != v]
+    fy = [v for v in validated(xs) if fin(v)]
+    if gaps and (max(fy) - min(fy)) > 1e3 * min(gaps):
+        return {}, 'ill-conditioned for the float32 arithmetic of jax (rounding, excluded by the stated arithmetic assumption)'
+    c, obs, y, o = _pipeline_clauses(p, xs)
+    if y is None:
+        return c, obs
+    n = len(y)
+    c['order_never_reversed'] = _order_clauses(y, o, strict=False)['order']
+    c['ties_preserved'] = _order_clauses(y, o)['ties']
+    d = flat(ow.DetectOutliers().warp(col(xs))) if any(fin(v) for v in y) else y
+    kept = [i for i in range(n) if fin(d[i])]
+    c['kept_labels_keep_their_order'] = all((y[i] < y[j]) == (o[i] < o[j]) for i in kept for j in kept)
+    c['outlier_components_in_order'] = [type(w).__name__ for w in p.warpers] == ['DetectOutliers', 'InfeasibleWarperComponent', 'TransformToGaussian']
+    return c, obs
+
+
 RUNNERS = {
     'validate': r_validate, 'validate_rank1': r_validate_rank1, 'infeasible': r_infeasible, 'infeasible_roundtrip': r_infeasible_roundtrip,
     'infeasible_unwarp_first': r_unwarp_first(ow.InfeasibleWarperComponent), 'halfrank_unwarp_first': r_unwarp_first(ow.HalfRankComponent),
@@ -510,13 +555,13 @@ RUNNERS = {
     'halfrank_unwarp': r_halfrank_unwarp, 'pipeline_warp': r_pipeline('warp'), 'pipeline_unwarp': r_pipeline('unwarp'),
     'zscore': _elementwise(lambda p: ow.ZScoreLabels(), _zscore_extra),
     'normalize': _elementwise(lambda p: ow.NormalizeLabels(target_interval=tuple(p.get('target', (0.0, 1.0)))), _normalize_extra),
-    'outliers': r_outliers, 'default_pipeline': r_default_pipeline,
+    'outliers': r_outliers, 'default_pipeline': r_default_pipeline, 'ttg': r_ttg, 'outlier_pipeline': r_outlier_pipeline,
 }
 PARAM_GRID = {
     'log': [{'offset': 1.5}, {'offset': 0.5}, {'offset': 3.0}], 'log_roundtrip': [{'offset': 1.5}, {'offset': 0.5}],
     'pipeline_warp': [{'k': 0}, {'k': 1}, {'k': 3}], 'pipeline_unwarp': [{'k': 0}, {'k': 1}, {'k': 3}],
     'normalize': [{'target': (0.0, 1.0)}, {'target': (-2.0, 5.0)}, {'target': (1.0, 1.0)}],
-    'halfrank_unwarp': [{'fit': [1.0, 2.0, 3.0, 4.0, 5.0]}],
+    'halfrank_unwarp': [{'fit': [1.0, 2.0, 3.0, 4.0, 5.0]}], 'ttg': [{'use_rank': False}, {'use_rank': True}],
 }
 
 
@@ -525,7 +570,7 @@ def w_halfrank_nan_rank():
     xs = [1.0, 2.0, 2.0, NAN, -1e9, 5.0]
     h = flat(ow.HalfRankComponent().warp(col(xs)))
     o = flat(ow.create_default_warper().warp(col(xs)))
-    rep = math.isnan(h[0]) and math.isnan(h[4]) and o[0] == o[3] == o[4]
+    rep = math.isnan(h[0]) and math.isnan(h[4])        # the defect itself; the pipeline output below shows its consequence
     return rep, {'input': xs, 'HalfRankComponent().warp': h, 'create_default_warper().warp': o}, \
         'finite labels 1.0 and -1e9 stay finite, distinct and above the infeasible entry (index 3)'
 
@@ -600,8 +645,29 @@ def falsify(job):
     with_pinf = clause in ('raises_only_documented', 'posinf_rejected') or runner in ('validate',)
     cases += battery(with_pinf=with_pinf, min_len=int(job.get('min_len', 1)), limit=int(job.get('limit', 500)))
     evaluated = 0
+    excl = set(job.get('exclude') or [])       # keys of recorded findings: inputs inside their witness classes are skipped (residual clause)
+
+    def excluded(xs, params):
+        y = validated(xs)
+        fy = [v for v in y if fin(v)]
+        if 'halfrank_nan_rank' in excl and len(fy) != len(y):
+            return True
+        if 'halfrank_all_nan_indexerror' in excl and not fy:
+            return True
+        if 'log_constant_labels' in excl and len(set(fy)) < 2:
+            return True
+        if 'log_offset_one' in excl and params.get('offset') == 1.0:
+            return True
+        if 'ttg_use_rank_argsort' in excl and params.get('use_rank'):
+            return True
+        if ('halfrank_unwarp_median_mismatch' in excl or 'halfrank_unwarp_isclose_index' in excl) and fy:
+            if float(np.nanmedian(np.array(fy))) != sorted(set(fy))[len(set(fy)) // 2] or max(abs(v) for v in fy) > 1e3:
+                return True
+        return False
     for params in grid:
         for xs in cases:
+            if excl and excluded(xs, params):
+                continue
             try:
                 c, obs = fn(xs, params)
             except Exception as e:  # noqa: BLE001  (a crash of the runner itself is not a verdict)
